@@ -228,6 +228,18 @@ class C13:
                     if not (2**(le - 1) < e < 2**le and is_probable_prime(e) and math.gcd(e, phi) == 1):
                         P.fail(S, "e-shape", "e is not an le-bit prime coprime to phi", [str(e)])
                     S.run([vline(x, msgs, sig)], expect=expect_bool(True), label="verify(sign)")
+                    # "for every base set": bases the CALLER supplies need not be quadratic residues -- N - a_i is a non-residue (Jacobi symbol +1);
+                    # with odd attributes a signature whose e-th root was taken modulo the order of the residues only would be rejected half of the time
+                    if stats["signatures"] <= 3 and suite == "toy":
+                        nb = [N - b_ if k_ % 2 == 0 else b_ for k_, b_ in enumerate(x.bases)]
+                        for _rep in range(4 if tier == "quick" else 16):
+                            mo = [rmsg(rng) | 1 for _ in range(n)]
+                            rn = S.run(["clsign %s %s %s %s %s" % (suite, zl(x.pk), zl(x.sk), zl(nb), zl(mo))], expect="ok", label="clsign(non-residue bases)")[0]
+                            if rn.status == "OK":
+                                S.run([vline(x, mo, [rn.z(0), rn.z(1), rn.z(2)], bases=nb)], expect=expect_bool(True), label="verify(sign):non-residue-bases")
+                            r1n = S.run(["clsign1 %s %s %s %s %d" % (suite, zl(x.pk), zl(x.sk), zl(nb), mo[0])], expect="ok", label="clsign1(non-residue base)")[0]
+                            if r1n.status == "OK":
+                                S.run(["clverify1 %s %s %s %d %s" % (suite, zl(x.pk), zl(nb), mo[0], zl([r1n.z(0), r1n.z(1), r1n.z(2)]))], expect=expect_bool(True), label="verify1(sign1):non-residue-base")
                     # the prime search for e started just below 2^le (first draw forced): the prime that follows has le + 1 bits and
                     # must be refused by the signer's own bounds; the signature returned must again carry an le-bit e
                     if stats["signatures"] <= 2:
